@@ -836,3 +836,21 @@ Example mutex_sched_starved_path :
                        ARelease; APend; APoll 0; AStep 0 false; AStep 0 false; AStep 0 false] in
   g_w s = 1 /\ nth_error (g_futs s) 0 = Some (mkF PDone None false false) /\ g_guards s = 1.
 Proof. vm_compute. repeat split; reflexivity. Qed.
+
+(* ---------- C13, try_lock clause, for every schedule: while some operation holds a starvation ticket, the fast path is
+   closed — a try_lock (a compare_exchange(0,1) of any thread) fails and so does the fast path of a first poll ---------- *)
+Theorem mutex_sched_starved_closes_fast_path sched n : let s := run true n sched in
+  (exists i f, getf s i = Some f /\ fstv f = true) -> g_w s <> 0 /\ step true s ATry = s.
+Proof.
+  intros s (i & f & L & St). destruct (run_inv sched n) as (_ & (W1 & _) & _). fold s in W1.
+  pose proof (cntb_ge fstv i f _ L St) as G.
+  assert (NZ : g_w s <> 0) by lia. split; [exact NZ|].
+  cbn [step]. destruct (g_w s =? 0) eqn:Z; [apply N.eqb_eq in Z; contradiction | reflexivity].
+Qed.
+(* and the ticket is there from the fetch_add(2) of the operation until its take_mutex (completion) or its drop *)
+Lemma starved_pcs s i f : Own s -> getf s i = Some f -> fstv f = true ->
+  match fpc f with PS0 | PSCas | PSDrop | PSNotify | PSOr | PSTake | PCTake | PParked => True | _ => False end.
+Proof.
+  intros O L St. pose proof (ow_pc _ _ _ O i f L) as (_ & _ & _ & P4). destruct (fpc f); cbn [stvF] in P4; try exact Logic.I;
+    rewrite P4 in St by reflexivity; discriminate.
+Qed.
